@@ -29,6 +29,7 @@ var (
 	uniX = []int{-2, -1, 0, 1, 2, 3, 4}
 	uniV = []int{-1, 0, 1, 2, 3, 4, 5, 6}
 	uniO = []int{0, 1, 2, 3, 4}
+	uniY = []float32{-1.5, 0, 0.1, 0.25, 0.3, 0.5, 0.7, 1, 1.3, 3e38}
 	uniT []time.Time
 	uniZ = []string{"", "A", "B", "a", "aa", "ab", "b", "z", "é", "ÿ"}
 
@@ -150,6 +151,11 @@ func init() {
 			panic("uniV")
 		}
 	}
+	for i := 1; i < len(uniY); i++ {
+		if !(uniY[i-1] < uniY[i]) {
+			panic("uniY")
+		}
+	}
 	for i := 1; i < len(uniT); i++ {
 		if !uniT[i-1].Before(uniT[i]) {
 			panic("uniT")
@@ -164,10 +170,10 @@ func init() {
 
 // FieldNames lists the spec-level field names, in a fixed order.
 // PX/PY are the nested paths P.X / P.Y, E is Emb.E; Pn is 1 when P is nil.
-var FieldNames = []string{"K", "S", "A", "U", "F", "N", "T", "E", "PX", "PY", "Z", "V", "W", "O", "R", "Pn"}
+var FieldNames = []string{"K", "S", "A", "U", "F", "N", "T", "E", "PX", "PY", "Z", "V", "W", "O", "R", "Y", "Pn"}
 
 // Path gives the sod field path of a spec-level field name.
-var Path = map[string]string{"K": "K", "S": "S", "A": "A", "U": "U", "F": "F", "N": "N", "T": "T", "E": "Emb.E", "PX": "P.X", "PY": "P.Y", "Z": "Z", "V": "V", "W": "W", "O": "O", "R": "R"}
+var Path = map[string]string{"K": "K", "S": "S", "A": "A", "U": "U", "F": "F", "N": "N", "T": "T", "E": "Emb.E", "PX": "P.X", "PY": "P.Y", "Z": "Z", "V": "V", "W": "W", "O": "O", "R": "R", "Y": "Y"}
 
 // CaseKind: "" | "lower" | "upper"
 // (R only carries its constraint under custom schema 7; it is nil, i.e. canonical, everywhere else)
@@ -192,6 +198,8 @@ func UniSize(f string) int {
 		return len(uniV)
 	case "O":
 		return len(uniO)
+	case "Y":
+		return len(uniY)
 	case "T":
 		return len(uniT)
 	case "Z":
@@ -232,6 +240,8 @@ func zeroCode(f string) int {
 		return caseUpper.encode("")
 	case "Z", "O":
 		return 0
+	case "Y":
+		return 1
 	}
 	return 0
 }
@@ -261,6 +271,14 @@ func idxU64(u []uint64, v uint64) int {
 	return -1
 }
 func idxF64(u []float64, v float64) int {
+	for i, x := range u {
+		if x == v {
+			return i
+		}
+	}
+	return -1
+}
+func idxF32(u []float32, v float32) int {
 	for i, x := range u {
 		if x == v {
 			return i
